@@ -160,7 +160,7 @@ def stepWorker (s : State) (w : Nat) : Option State :=
     | .inFin =>
       some { s with wk := upd s.wk w { x with log := x.log ++ [.fin], counted := true, pc := .loopTest },
                     waiting := s.waiting + 1,
-                    mpc := s.mpc,
+                    mpc := if s.waiting + 1 = s.n then wakeMain s.mpc else s.mpc,
                     mutex := none }
     | .done => none
   else none
